@@ -161,8 +161,10 @@ theorem go_inv (cfg : Cfg) : ∀ (fuel : Nat) (l : Lbl) (st : St), Pre l st → 
       split
       · exact post_of_mid h (by simp) (by simp) (by simp)
       · have := finallyRM_spec st h
-        refine ih _ _ ⟨?_, this.2.1⟩
-        exact this.1.next
+        split
+        · exact ih _ _ (pre_exit_finally st h)
+        · refine ih _ _ ⟨?_, this.2.1⟩
+          exact this.1.next
     | err400 =>
       simp only [Pre] at h
       simp only [go]
